@@ -411,7 +411,14 @@ pub fn c06(tier: &str) -> ! {
     if t {
         run_sched(&mut rep, "batches/p3d5", &c06_programs(), (3, 5), 16, true, 2, Duration::from_secs(2400), own);
     } else {
-        run_sched(&mut rep, "batches/p2d4", &c06_programs(), (2, 4), 8, true, 1, Duration::from_secs(38), own);
+        run_sched(&mut rep, "batches/p2d4", &c06_programs(), (2, 4), 8, true, 1, Duration::from_secs(32), own);
+    }
+    // a pinned reader behind a long run of newer versions of one of a batch's keys (sequence
+    // explorer; the snapshot oracle is C03's, its clauses count as this check's own here)
+    {
+        use crate::props_seq::{hot_batch_family, run_families};
+        let fams = vec![hot_batch_family("C06-hot-batch/M2b", "M2b", if t { 4 } else { 2 }), hot_batch_family("C06-hot-batch/T300", "T300", if t { 4 } else { 2 })];
+        run_families(&mut rep, fams, if t { crate::report::scaled(Duration::from_secs(600)) } else { Duration::from_secs(8) }, |c| c.starts_with("C03.") || c.starts_with("C01.") || c == "iter.err");
     }
     // across a crash: what a reader sees after the recovery - and after later writes have moved
     // the sequence number on - is a state the history went through, never part of a batch
@@ -439,7 +446,7 @@ pub fn c06(tier: &str) -> ! {
     for a in SCHED_ASSUMPTIONS {
         rep.assume(a);
     }
-    rep.cov("oracle", json!("every snapshot read / iterator scan returns all or none of each batch's effects (judged directly when no other writer touches the batch's keys, and through linearizability with batches as atomic multi-key writes otherwise); crash part: at every crash image (prefix of the filesystem-operation log) of the covering and generated histories the recovered contents of the history's keys equal the model after some prefix of the history's operations - never part of a batch - right after the recovery, after each of three later writes to other keys, and after a clean reopen; a snapshot taken right after the recovery keeps its state"));
+    rep.cov("oracle", json!("every snapshot read / iterator scan returns all or none of each batch's effects (judged directly when no other writer touches the batch's keys, and through linearizability with batches as atomic multi-key writes otherwise); sequence part: from a state with a three-key batch, a live snapshot and 130 newer versions of the batch's middle key, every sequence over {130 more versions, another batch, delete, flush, compact, snapshot}: gets and forward/backward scans through every live snapshot equal the state frozen at its creation (the whole batch, never part of it); crash part: at every crash image (prefix of the filesystem-operation log) of the covering and generated histories the recovered contents of the history's keys equal the model after some prefix of the history's operations - never part of a batch - right after the recovery, after each of three later writes to other keys, and after a clean reopen; a snapshot taken right after the recovery keeps its state"));
     rep.finish()
 }
 
